@@ -304,6 +304,10 @@ class CallMixin:
             r = f(self, args, kwargs, node)
             self.event('ext-call', node, callee=name, args=args, kwargs=kwargs, result=r)
             return r
+        if args and name.split('.')[-1] in ('encryptor', 'decryptor') and 'Cipher' in name and \
+                isinstance(self.resolve(args[0]), SymV) and self.resolve(args[0]).kind == 'ext':
+            # the unbound method taken from the class (Cipher.encryptor(cipher)): the same as the call on the object
+            return self.call_method(args[0], name.split('.')[-1], list(args[1:]), kwargs, node)
         total = name in ext.TOTAL_EXT or any(name.startswith(p) for p in ext.TOTAL_PREFIX)
         r = SymV(self.fresh(name.split('.')[-1]), 'ext', origin=('call', name, args, kwargs),
                  tags=frozenset().union(*[value_tags(a) for a in args]) if args else frozenset())
@@ -747,8 +751,13 @@ def b_sorted(it, args, kwargs, node):
     order = 'asc'
     if rev is not None:
         order = 'desc' if it.truth(rev) else 'asc'
+    by_first = False
     if 'key' in kwargs:
-        order = None
+        kf = it.resolve(kwargs['key'])
+        if isinstance(kf, PartialV) and kf.kind == 'itemgetter' and len(kf.args) == 1 and it.py_key(kf.args[0]) == 0:
+            by_first = True         # key=operator.itemgetter(0): ordered by the first component (dictionary items: by key)
+        else:
+            order = None
     elem, ln = it.iter_element(v, node)
     if isinstance(v, ListV) and v.items is not None and order:
         # tuples whose first components are distinct constants (dictionary items): ordered by that component alone
